@@ -262,6 +262,14 @@ def run_unit(unit_path, prop, tier, seed, tag=None):
             u['undecided'].append({'reason': 'unit-file-error', 'detail': 'fn block %s carries no annotation at all (no contract)' % b['name']})
     r = sh(verus_cmd(out_path), cwd=gen_dir)
     pv = parse_verus(r.stdout, r.stderr)
+    if any(is_rlimit(d) for d in pv['diags']):
+        # a resource-limit hit is no verdict: try once more with ten times the limit (a wrong token sequence is usually
+        # refuted, and a slow proof usually found, well inside it); what is still out of resources stays UNDECIDED
+        r = sh(verus_cmd(out_path, ['--rlimit', '100']), cwd=gen_dir)
+        pv_big = parse_verus(r.stdout, r.stderr)
+        if pv_big['json'] is not None:
+            pv = pv_big
+            u['rlimit_retry'] = {'rlimit': 100, 'still_out_of_resources': any(is_rlimit(d) for d in pv['diags'])}
     if tier == 'thorough' and not tag:
         # stability probe (never deciding): the same file under another solver seed and a 4x rlimit
         r2 = sh(verus_cmd(out_path, ['--rlimit', '40', '--smt-option', 'smt.random_seed=%d' % (seed % 1000)]), cwd=gen_dir)
@@ -574,8 +582,8 @@ GLOBAL_ASSUMPTIONS = [
     'the quote! stand-in, the wgpu::ShaderStages stand-in and "{:?} prints the variant name" are not proved: they are conformance-tested against the real crates on every template of the checked tree (coverage.extras.shim_conformance)',
 ]
 PROP_TRUST = {}
-try:
-    PROP_TRUST = json.load(open(os.path.join(ROOT, 'spec', 'trust.json')))
+try:  # the per-property assumptions are the level notes of spec/claims.json (one place to edit; MANIFEST.json is generated from it too)
+    PROP_TRUST = {c['id']: ['per-property: ' + c['level_note']] for c in json.load(open(os.path.join(ROOT, 'spec', 'claims.json')))['claimed']}
 except Exception:
     pass
 
